@@ -229,6 +229,14 @@ func (a *Agent) hooks(proc *process.Process, sym *symbol.Symbol, in *port.InPort
 	inboundHook := packet.HookFunc(func(pck *packet.Packet) {
 		a.mu.Lock()
 
+		// The exit hook that forgets the process is registered after the port's own exit hook and
+		// therefore runs before it: packets that the closing endpoints still pass through this
+		// hook (dropped responses) must not bring the forgotten process's frames back.
+		if _, ok := a.processes[proc.ID()]; !ok {
+			a.mu.Unlock()
+			return
+		}
+
 		// Frames are handed to watchers and to callers of Frames, which read them outside the
 		// lock: a published frame is never modified, it is replaced by an updated copy.
 		var frame *Frame
@@ -263,6 +271,11 @@ func (a *Agent) hooks(proc *process.Process, sym *symbol.Symbol, in *port.InPort
 
 	outboundHook := packet.HookFunc(func(pck *packet.Packet) {
 		a.mu.Lock()
+
+		if _, ok := a.processes[proc.ID()]; !ok {
+			a.mu.Unlock()
+			return
+		}
 
 		var frame *Frame
 		for i, f := range a.frames[proc.ID()] {
